@@ -601,6 +601,71 @@ def _depends(fi: FunctionInfo, ret: ast.Return, local: str) -> bool:
 
 
 # --------------------------------------------------------------------------------------------------------------------
+def usecols_pass(run: Run, pkg: Package, funcs: List[FunctionInfo]) -> int:
+    """pandas' documented contract: `usecols` selects a SET of columns - element order is ignored and the columns come back in
+    file order.  A caller-ordered list handed to usecols whose result is then used positionally permutes the columns."""
+    n = 0
+    for fi in funcs:
+        params = set(fi.params)
+        for s in ast.walk(fi.node):
+            if not (isinstance(s, ast.Assign) and len(s.targets) == 1):
+                continue
+            call = s.value
+            positional_now = False
+            if isinstance(call, ast.Attribute) and call.attr == "values" and isinstance(call.value, ast.Call):
+                call, positional_now = call.value, True
+            if not isinstance(call, ast.Call):
+                continue
+            # allow a trailing .values / .to_numpy() on the read
+            inner = call
+            while isinstance(inner, ast.Call) and isinstance(inner.func, ast.Attribute) and inner.func.attr in ("to_numpy",) and isinstance(inner.func.value, ast.Call):
+                inner, positional_now = inner.func.value, True
+            if not (isinstance(inner.func, ast.Attribute) and inner.func.attr in ("read_csv", "read_table", "read_fwf")):
+                continue
+            uc = [k.value for k in inner.keywords if k.arg == "usecols"]
+            if not uc:
+                continue
+            n += 1
+            u = uc[0]
+            lit = isinstance(u, (ast.List, ast.Tuple)) and all(isinstance(e, ast.Constant) for e in u.elts)
+            if lit and [e.value for e in u.elts] == sorted(e.value for e in u.elts):
+                continue
+            from_param = any(isinstance(m, ast.Name) and (m.id in params or _derived_from_params(fi, m.id, params)) for m in ast.walk(u))
+            if not (from_param or lit):
+                continue
+            tgt = s.targets[0]
+            name = tgt.id if isinstance(tgt, ast.Name) else None
+            reordered = False
+            positional = positional_now
+            if name and not positional_now:
+                for m in ast.walk(fi.node):
+                    if isinstance(m, ast.Subscript) and isinstance(m.value, ast.Name) and m.value.id == name and not isinstance(m.slice, ast.Constant):
+                        reordered = True
+                    if isinstance(m, ast.Attribute) and isinstance(m.value, ast.Name) and m.value.id == name:
+                        if m.attr in ("reindex", "loc"):
+                            reordered = True
+                        if m.attr in ("values", "to_numpy", "iloc"):
+                            positional = True
+            if positional and not reordered:
+                run.ob("R-LIBORDER", short(fi.qual), f"usecols@{norm_stmt(s)[:60]}", False,
+                       "columns selected with usecols are re-ordered as requested before they are used by position",
+                       f"usecols={ast.unparse(u)[:60]} follows the caller's order, but pandas ignores the order of usecols and returns the columns in file order; the table is then used positionally",
+                       witness="requested columns [7, 5]: the result holds column 5 first, then column 7 (ascending lists are unaffected)", loc=fi.loc(s), sound=True)
+    return n
+
+
+def _derived_from_params(fi: FunctionInfo, name: str, params: Set[str], depth: int = 3) -> bool:
+    if depth == 0:
+        return False
+    for s in ast.walk(fi.node):
+        if isinstance(s, ast.Assign) and any(isinstance(t, ast.Name) and t.id == name for t in s.targets):
+            for m in ast.walk(s.value):
+                if isinstance(m, ast.Name) and (m.id in params or (m.id != name and _derived_from_params(fi, m.id, params, depth - 1))):
+                    return True
+    return False
+
+
+# --------------------------------------------------------------------------------------------------------------------
 def state_pass(run: Run, pkg: Package, everything: bool = False) -> None:
     if everything:
         funcs = pkg.all_functions()
@@ -625,5 +690,6 @@ def state_pass(run: Run, pkg: Package, everything: bool = False) -> None:
         "delegated_saves": savefwd_pass(run, pkg, funcs),
         "empty_allocations": uninit_pass(run, pkg, funcs),
         "stored_fields": statepath_pass(run, pkg, funcs),
+        "usecols_reads": usecols_pass(run, pkg, funcs),
     }
     run.extra["state_rules"] = {"functions": len(funcs), **counts}
